@@ -103,7 +103,9 @@ def run(tier, seed):
     X = ["-DVH_FBX"]
     cf, fbs, ebs = c16.listing("std256", X)
     want_e, want_f = c16.EXPECTED_EB["std256"], c16.EXPECTED_FB["std256"]
-    bcases = ["E%d eb_select" % i for i in sorted(set(want_e) | set(int(c.sel[1:]) for c in ebs))] + \
+    eids = sorted(set(want_e) | set(int(c.sel[1:]) for c in ebs))
+    # every curve after every other one (a constant or flag left over from the previous selection is a stale parameter)
+    bcases = ["E%d eb_select" % i for i in eids + eids[::-1][1:] + eids[1:2]] + \
              ["F%d fb_select" % i for i in sorted(set(want_f) | set(f[0] for f in fbs))]
     conf = core.Conformance("C18", ev, wd)
     conf.run("std256-binary", "std256", "fbx", c16.DRV, bcases, c16.SPEC, extra_cc=X, driver_args=["nofork"],
